@@ -2,6 +2,7 @@ package main
 
 import (
 	"fmt"
+	"go/types"
 	"strings"
 
 	"golang.org/x/tools/go/ssa"
@@ -19,43 +20,104 @@ func init() {
 }
 
 // retentionTable evaluates the retention decision on every order type of its inputs (shared by C12 and C03).
-func retentionTable(w *World, r *Report) (ro *Roles, dec *ssa.Function, decCall *ssa.Call) {
+type retInfo struct {
+	jobArg, idxArg int    // positions of the job and of its rank in the decision call's arguments
+	removeRet      string // the rendered first result that means "remove"
+	region         []*ssa.Function
+}
+
+func retentionTable(w *World, r *Report) (ro *Roles, dec *ssa.Function, decCall *ssa.Call, info *retInfo) {
 	ro = resolveRoles(w)
 	ro.record(r)
 	if ro.la == nil || ro.Save == nil {
 		r.Undecided("anchors", "roles", "-", "save function unresolved: "+strings.Join(ro.Errs, "; "))
-		return ro, nil, nil
+		return ro, nil, nil, nil
 	}
-	// anchor: the retention decision = callee of the save function returning (bool, …) taking (int, *PipelineJob)
-	// (the retention loop may sit in a helper of the save function)
-	for _, host := range append([]*ssa.Function{ro.Save}, ro.helpersOf(ro.Save)...) {
-		allInstrs(host, func(in ssa.Instruction) {
-			if c, ok := in.(*ssa.Call); ok {
-				f := c.Call.StaticCallee()
-				if f != nil && w.InModule(f) && f.Signature.Results().Len() >= 1 && f.Signature.Results().At(0).Type().String() == "bool" && f.Signature.Params().Len() == 2 &&
-					typeShort(f.Signature.Params().At(1).Type()) == "PipelineJob" {
-					dec, decCall = f, c
-				}
-			}
-		})
-	}
+	// anchor: the retention decision = a function called on the save path (the save function, the helpers
+	// spliced into it, or the module functions it calls, depth ≤ 3) whose first result is a bool or a small
+	// enum of the module and whose parameters (receiver included) are a job and its rank (an int)
+	region := saveRegion(w, ro)
+	rd := findRetentionDecision(w, ro, region)
+	dec, decCall = rd.dec, rd.call
+	jobPrm, idxPrm, defPrm, existsPrm := rd.job, rd.idx, rd.def, rd.exists
 	if dec == nil {
 		r.Undecided("table.anchors", "retention decision", w.Pos(ro.Save.Pos()), "the save function calls no (index, job) → (bool, …) decision function")
-		return ro, nil, nil
+		return ro, nil, nil, nil
 	}
 	r.Anchor("retention decision", FuncName(dec))
 	fname := FuncName(dec)
-	res := w.EnumPaths(dec, EnumOpts{})
+	res := w.EnumPaths(dec, EnumOpts{Inline: true, MaxPaths: 20000})
 	r.Count("paths", len(res.Paths))
-	d := "recv.defs.Pipelines[arg1.Pipeline]"
+	J, idxAP := w.AP(jobPrm), w.AP(idxPrm)
+	d := "recv.defs.Pipelines[" + J + ".Pipeline]"
+	existsAP := "has(" + d + ")"
+	if defPrm != nil {
+		// the definition (and whether it exists) is handed in: at the call it is the comma-ok lookup of the
+		// job's own pipeline in the current definitions
+		d = w.AP(defPrm)
+		existsAP = "has(" + d + ")"
+		if existsPrm != nil {
+			existsAP = w.AP(existsPrm)
+		}
+		jobArg := w.AP(decCall.Call.Args[paramIdxOf(jobPrm)])
+		okDef := w.AP(decCall.Call.Args[paramIdxOf(defPrm)]) == "recv.defs.Pipelines["+jobArg+".Pipeline]"
+		if existsPrm != nil {
+			okDef = okDef && w.AP(decCall.Call.Args[paramIdxOf(existsPrm)]) == "has(recv.defs.Pipelines["+jobArg+".Pipeline])"
+		}
+		if !okDef {
+			r.Undecided("table.retention", fname+": decision table", w.InstrPos(decCall), "the retention decision is handed a definition that is not the comma-ok lookup of the job's own pipeline in the current definitions")
+			return ro, nil, nil, nil
+		}
+	}
 	vars := map[string]string{
-		"has(" + d + ")": "defexists", "arg1.Start": "startptr", "arg1.Completed": "completed", "arg1.Canceled": "canceled",
-		d + ".RetentionPeriod": "period", "time.Since(arg1.Created)": "age", d + ".RetentionCount": "count", "arg0": "index",
+		existsAP: "defexists", J + ".Start": "startptr", J + ".Completed": "completed", J + ".Canceled": "canceled",
+		d + ".RetentionPeriod": "period", "time.Since(" + J + ".Created)": "age", d + ".RetentionCount": "count", idxAP: "index",
+	}
+	// what the first result means: true, or — for an enum — the constant on whose edge the caller removes the job
+	removeRet := "true"
+	if f := dec.Signature.Results().At(0).Type().String(); f != "bool" {
+		removeRet = ""
+		host := decCall.Parent()
+		for _, fct := range w.ifFacts(host) {
+			if fct.Atom.Op != "==" || !strings.HasPrefix(fct.Atom.L, FuncName(dec)+"(") || !strings.HasSuffix(fct.Atom.L, "#0") {
+				continue
+			}
+			tb := fct.If.Block().Succs[fct.SuccTrue]
+			deletes := false
+			for _, b := range host.Blocks {
+				if !tb.Dominates(b) {
+					continue
+				}
+				for _, in := range b.Instrs {
+					if c := callCommonOf(in); c != nil {
+						if bi, isB := c.Value.(*ssa.Builtin); isB && bi.Name() == "delete" && strings.HasSuffix(w.AP(c.Args[0]), ".jobsByID") {
+							deletes = true
+						}
+						if g := c.StaticCallee(); g != nil && g.Blocks != nil && w.InModule(g) {
+							allInstrs(g, func(x ssa.Instruction) {
+								if cc := callCommonOf(x); cc != nil {
+									if bi, isB := cc.Value.(*ssa.Builtin); isB && bi.Name() == "delete" && strings.HasSuffix(w.AP(cc.Args[0]), ".jobsByID") {
+										deletes = true
+									}
+								}
+							})
+						}
+					}
+				}
+			}
+			if deletes {
+				removeRet = fct.Atom.R
+			}
+		}
+		if removeRet == "" {
+			r.Undecided("table.retention", fname+": decision table", w.InstrPos(decCall), "the caller does not branch on the decision's result with a removal on one edge: which result means 'remove' is not recognised")
+			return ro, nil, nil, nil
+		}
 	}
 	// a decision that asks the job's running predicate is evaluated with that predicate's own table
 	runTable, _ := runTableOf(w, ro.RunPred)
 	if runTable != nil {
-		vars[FuncName(ro.RunPred)+"(arg1)"] = "isrunning"
+		vars[FuncName(ro.RunPred)+"("+J+")"] = "isrunning"
 	}
 	bad, n := 0, 0
 	first := ""
@@ -75,9 +137,9 @@ func retentionTable(w *World, r *Report) (ro *Roles, dec *ssa.Function, decCall 
 									p, why := selectPath(res.Paths, vars, env)
 									if p == nil || len(p.Ret) < 1 {
 										r.Undecided("table.retention", fname+": decision table", w.Pos(dec.Pos()), "cannot evaluate the retention decision: "+why)
-										return ro, nil, nil
+										return ro, nil, nil, nil
 									}
-									got := p.Ret[0] == "true"
+									got := p.Ret[0] == removeRet
 									var want bool
 									switch {
 									case de == 0:
@@ -108,11 +170,11 @@ func retentionTable(w *World, r *Report) (ro *Roles, dec *ssa.Function, decCall 
 		fmt.Sprintf("%d valuations agree with: undefined pipeline → remove; waiting/running → keep; else remove ⇔ (period>0 ∧ age>period) ∨ (count>0 ∧ rank≥count)", n),
 		fmt.Sprintf("%d of %d valuations disagree with the stated retention table; first: %s", bad, n, first))
 
-	return ro, dec, decCall
+	return ro, dec, decCall, &retInfo{jobArg: paramIdxOf(jobPrm), idxArg: paramIdxOf(idxPrm), removeRet: removeRet, region: region}
 }
 
 func checkC12(w *World, r *Report) {
-	ro, dec, decCall := retentionTable(w, r)
+	ro, dec, decCall, info := retentionTable(w, r)
 	// (5) every stored job is registered at start-up: only a registered job can later be removed with its logs
 	if lf, mc := loadAnchors(w); lf != nil {
 		loadEveryJob(w, r, "load.every-stored-job", lf, mc)
@@ -126,11 +188,41 @@ func checkC12(w *World, r *Report) {
 	// host: the function that holds the retention loop (the save function or a helper spliced into it)
 	save := decCall.Parent()
 	sname := FuncName(save)
-	idxAP, jobAP := w.AP(decCall.Call.Args[len(decCall.Call.Args)-2]), w.AP(decCall.Call.Args[len(decCall.Call.Args)-1])
+	idxAP, jobAP := w.AP(decCall.Call.Args[info.idxArg]), w.AP(decCall.Call.Args[info.jobArg])
 	var list ssa.Value
-	if ld, ok := w.Resolve(decCall.Call.Args[len(decCall.Call.Args)-1]).(*ssa.UnOp); ok {
+	if ld, ok := w.Resolve(decCall.Call.Args[info.jobArg]).(*ssa.UnOp); ok {
 		if ia, ok := w.resolveAddr(ld.X).(*ssa.IndexAddr); ok && w.AP(ia.Index) == idxAP {
 			list = w.Resolve(ia.X)
+		}
+	}
+	// the sorted copy may be produced by a helper (a method of a named list type) that returns a fresh slice:
+	// the copy and the sort are then looked for in that helper, with its parameters read as the call's arguments
+	rankFn := save
+	var rankEnd ssa.Instruction = decCall
+	if hc, ok := list.(*ssa.Call); ok {
+		if g := hc.Call.StaticCallee(); g != nil && g.Blocks != nil && w.InModule(g) {
+			var ret *ssa.Return
+			nret := 0
+			allInstrs(g, func(in ssa.Instruction) {
+				if rt, ok := in.(*ssa.Return); ok && len(rt.Results) == 1 && rt.Block() != g.Recover {
+					nret++
+					ret = rt
+				}
+			})
+			if nret == 1 {
+				if ms, ok := w.Resolve(ret.Results[0]).(*ssa.MakeSlice); ok {
+					penv := map[*ssa.Parameter]ssa.Value{}
+					for i, prm := range g.Params {
+						if i < len(hc.Call.Args) {
+							penv[prm] = w.Resolve(hc.Call.Args[i])
+						}
+					}
+					saved := w.paramEnv
+					w.paramEnv = penv
+					defer func() { w.paramEnv = saved }()
+					list, rankFn, rankEnd = ms, g, ret
+				}
+			}
 		}
 	}
 	_, fresh := list.(*ssa.MakeSlice)
@@ -139,7 +231,7 @@ func checkC12(w *World, r *Report) {
 		// copy from the pipeline's list, and a sort with a newest-first comparator dominating the loop
 		copied, sorted := false, false
 		var cmp *ssa.Function
-		allInstrs(save, func(in ssa.Instruction) {
+		allInstrs(rankFn, func(in ssa.Instruction) {
 			c, ok := in.(*ssa.Call)
 			if !ok {
 				return
@@ -156,7 +248,7 @@ func checkC12(w *World, r *Report) {
 					hasList = true
 				}
 			}
-			if !hasList || !instrDominates(c, decCall) {
+			if !hasList || !instrDominates(c, rankEnd) {
 				return
 			}
 			for _, a := range c.Call.Args {
@@ -237,7 +329,8 @@ func checkC12(w *World, r *Report) {
 	var removeIf *ifFact
 	facts := w.ifFacts(save)
 	for i, f := range facts {
-		if f.Atom.Op == "true" && strings.HasPrefix(f.Atom.L, FuncName(dec)+"(") && strings.HasSuffix(f.Atom.L, "#0") {
+		if strings.HasPrefix(f.Atom.L, FuncName(dec)+"(") && strings.HasSuffix(f.Atom.L, "#0") &&
+			(f.Atom.Op == "true" && info.removeRet == "true" || f.Atom.Op == "==" && f.Atom.R == info.removeRet) {
 			removeIf = &facts[i]
 		}
 	}
@@ -303,7 +396,50 @@ func checkC12(w *World, r *Report) {
 	var rangeID ssa.Instruction
 	var snapFn *ssa.Function
 	helperLocks := false
-	for _, f := range append([]*ssa.Function{top}, ro.helpersOf(top)...) {
+	inRegion := map[*ssa.Function]bool{}
+	for _, f := range info.region {
+		inRegion[f] = true
+	}
+	// liftTop: the instruction of the save function that stands for in — in itself, or the one call of the
+	// save function through which in's function is reached inside the region
+	var reachesFn func(f, target *ssa.Function, d int) bool
+	reachesFn = func(f, target *ssa.Function, d int) bool {
+		if f == target {
+			return true
+		}
+		if d > 3 {
+			return false
+		}
+		found := false
+		allInstrs(f, func(x ssa.Instruction) {
+			if c := callCommonOf(x); c != nil {
+				if g := c.StaticCallee(); g != nil && inRegion[g] && g != f && reachesFn(g, target, d+1) {
+					found = true
+				}
+			}
+		})
+		return found
+	}
+	liftTop := func(in ssa.Instruction) ssa.Instruction {
+		if in == nil || in.Parent() == top {
+			return in
+		}
+		var out ssa.Instruction
+		n := 0
+		allInstrs(top, func(x ssa.Instruction) {
+			if c := callCommonOf(x); c != nil {
+				if g := c.StaticCallee(); g != nil && inRegion[g] && reachesFn(g, in.Parent(), 1) {
+					out = x
+					n++
+				}
+			}
+		})
+		if n == 1 {
+			return out
+		}
+		return nil
+	}
+	for _, f := range info.region {
 		allInstrs(f, func(in ssa.Instruction) {
 			if rg, ok := in.(*ssa.Range); ok && w.AP(rg.X) == "recv.jobsByID" {
 				rangeID, snapFn = in, f
@@ -320,7 +456,7 @@ func checkC12(w *World, r *Report) {
 			c := callCommonOf(x)
 			return c != nil && (strings.HasSuffix(calleeName(c), "RWMutex).Unlock") || strings.HasSuffix(calleeName(c), "RWMutex).RUnlock"))
 		}
-		remAt, snapAt := ro.liftTo(top, removeIf.If), ro.liftTo(top, rangeID)
+		remAt, snapAt := liftTop(removeIf.If), liftTop(rangeID)
 		okOrder := false
 		detail := ""
 		switch {
@@ -397,4 +533,99 @@ func (w *World) reachesSort(fn *ssa.Function) bool {
 	}
 	visit(fn, 0)
 	return found
+}
+
+// saveRegion: the save function, the helpers spliced into it and the functions of the root package it
+// calls statically (depth ≤ 3): where the retention loop, the removal and the snapshot may live.
+func saveRegion(w *World, ro *Roles) []*ssa.Function {
+	seen := map[*ssa.Function]bool{ro.Save: true}
+	out := []*ssa.Function{ro.Save}
+	for _, h := range ro.helpersOf(ro.Save) {
+		if !seen[h] {
+			seen[h] = true
+			out = append(out, h)
+		}
+	}
+	var rec func(f *ssa.Function, d int)
+	rec = func(f *ssa.Function, d int) {
+		if d >= 3 {
+			return
+		}
+		allInstrs(f, func(in ssa.Instruction) {
+			if c := callCommonOf(in); c != nil {
+				if g := c.StaticCallee(); g != nil && g.Blocks != nil && g.Package() == ro.Root && !seen[g] && g.Synthetic == "" {
+					seen[g] = true
+					out = append(out, g)
+					rec(g, d+1)
+				}
+			}
+		})
+	}
+	rec(ro.Save, 0)
+	return out
+}
+
+type retentionDecision struct {
+	dec                   *ssa.Function
+	call                  *ssa.Call
+	job, idx, def, exists *ssa.Parameter
+}
+
+// findRetentionDecision: the function called on the save path whose first result is a bool or a small enum of
+// the module and whose parameters (receiver included) are one job and one int (its rank).
+func findRetentionDecision(w *World, ro *Roles, region []*ssa.Function) retentionDecision {
+	var dec *ssa.Function
+	var decCall *ssa.Call
+	var jobPrm, idxPrm, defPrm, existsPrm *ssa.Parameter
+	roleParams := func(f *ssa.Function) (job, idx, def, exists *ssa.Parameter, ok bool) {
+		nJob, nIdx := 0, 0
+		for _, prm := range f.Params {
+			t := prm.Type()
+			switch {
+			case typeShort(t) == "PipelineJob":
+				job = prm
+				nJob++
+			case strings.HasSuffix(t.String(), "definition.PipelineDef"):
+				def = prm
+			default:
+				if b, isB := t.Underlying().(*types.Basic); isB {
+					if b.Kind() == types.Bool {
+						exists = prm
+					} else if b.Info()&types.IsInteger != 0 && t == types.Typ[types.Int] {
+						idx = prm
+						nIdx++
+					}
+				}
+			}
+		}
+		return job, idx, def, exists, nJob == 1 && nIdx == 1
+	}
+	for _, host := range region {
+		allInstrs(host, func(in ssa.Instruction) {
+			c, ok := in.(*ssa.Call)
+			if !ok {
+				return
+			}
+			f := c.Call.StaticCallee()
+			if f == nil || f.Blocks == nil || !w.InModule(f) || f.Signature.Results().Len() < 1 {
+				return
+			}
+			rt := f.Signature.Results().At(0).Type()
+			isBool := rt.String() == "bool"
+			isEnum := false
+			if n, isN := rt.(*types.Named); isN && n.Obj().Pkg() == ro.Root.Pkg {
+				if b, isB := n.Underlying().(*types.Basic); isB && b.Info()&types.IsInteger != 0 {
+					isEnum = true
+				}
+			}
+			if !isBool && !isEnum {
+				return
+			}
+			if j, i, d, e, okR := roleParams(f); okR {
+				dec, decCall = f, c
+				jobPrm, idxPrm, defPrm, existsPrm = j, i, d, e
+			}
+		})
+	}
+	return retentionDecision{dec, decCall, jobPrm, idxPrm, defPrm, existsPrm}
 }
